@@ -427,6 +427,7 @@ func (r *resolver) Resolve(ctx context.Context, vk resolve.VersionKey) (*resolve
 		log.Print(g.String())
 	}
 
+	verifExportTree(ctx, root)
 	g.Duration = time.Since(start)
 	return g, nil
 }
